@@ -157,6 +157,26 @@ example : (kmerge false [[(none, 0, 0), (some 5, 0, 1)], [(none, 1, 0), (some 2,
 example := C17_merge_kway_sorted false [[(none, 0, 0), (some 5, 0, 1)], [(none, 1, 0), (some 2, 1, 1)]]
   (by intro r hr; simp at hr; rcases hr with rfl | rfl <;> simp [sortedKeys, dirLe, keyLe])
 
+/-- The k-way merge consumes every source front to back: the live documents of one source
+appear in the merged segment in their old relative order (each run is a sublist of the merged
+sequence), whatever the keys — so the old→new mapping restricted to one source is strictly
+increasing, which is what lets `merger.rs` re-emit each source's posting lists, already in doc-id
+order, without re-sorting them (C04's `remap_monotone` hypothesis discharged for sorted merges). -/
+theorem C17_merge_kway_keeps_source_order (desc : Bool) (runs : List Run) (r : Run) (hr : r ∈ runs) :
+    r.Sublist (kmerge desc runs) :=
+  kmerge_sublist desc runs r hr
+
+/-- consequence: two documents of one source whose doc ids increase in the source still appear
+in that order in the merged sequence (pairwise statement over the source's own documents) -/
+theorem C17_merge_kway_source_pairs (desc : Bool) (runs : List Run) (r : Run) (hr : r ∈ runs)
+    (a b : SKey × Nat × Nat) (hab : [a, b].Sublist r) : [a, b].Sublist (kmerge desc runs) :=
+  hab.trans (kmerge_sublist desc runs r hr)
+
+example : [(some 5, 0, 1), (some 7, 0, 2)].Sublist
+    (kmerge false [[(none, 0, 0), (some 5, 0, 1), (some 7, 0, 2)], [(some 6, 1, 0)]]) :=
+  C17_merge_kway_source_pairs false _ [(none, 0, 0), (some 5, 0, 1), (some 7, 0, 2)] (by simp)
+    _ _ (by decide)
+
 /-- `is_disjunct_and_sorted_on_sort_property`: under the guard — every source sorted, no live
 document without a value, every live key within its column's `[min, max]`, and consecutive
 ranges disjunct in reader order — plain stacking of the sources is sorted. -/
